@@ -100,8 +100,11 @@ Definition tm_outcome (r : result loaded lerr) : tm :=
 Definition mk (v : Z) (fi : option pdict) (lib : option pdict) (fea : option string) : ufo :=
   {| u_version := v; u_fontinfo := fi; u_lib := lib; u_features := fea |}.
 
-Definition run_model (u : ufo) : tm := tm_outcome (load_model u).
-Definition run_spec (u : ufo) : tm := tm_outcome (load_spec u).
+(** a case: the request (lib?, features?) and the tree *)
+Definition rq (l f : bool) : request := {| q_lib := l; q_features := f |}.
+Definition case := (request * ufo)%type.
+Definition run_model (c : case) : tm := tm_outcome (load_model (fst c) (snd c)).
+Definition run_spec (c : case) : tm := tm_outcome (load_spec (fst c) (snd c)).
 
 (** does the legacy fontinfo have the legacy types?  (the property speaks about legacy
     attributes with legal values; ill-typed files are compared with the model only) *)
@@ -114,4 +117,4 @@ Definition well_typed (u : ufo) : bool :=
       end
   | None => true
   end.
-Definition typed_flags (cs : list (ufo * tm)) : list bool := map (fun c => well_typed (fst c)) cs.
+Definition typed_flags (cs : list (case * tm)) : list bool := map (fun c => well_typed (snd (fst c))) cs.
